@@ -245,7 +245,7 @@ NA = {
  'C39': 'both directions run through the polymorphic property object graph (dynamic_pointer_cast over shared_ptr<property>) which the front end cannot take',
 }
 
-PENDING = 'unit not built yet in this round (planned, see DESIGN.md section 5)'
+PENDING = 'planned (sequence-diff templates of abg-diff-utils.h under local contracts + bounded whole algorithm) but not built: see DESIGN.md section 5, C38'
 
 
 def main():
